@@ -177,6 +177,10 @@ def run(model, tier="quick"):
                   "status refresh visits every market (second refresh: every market with has_update)", ["set_market_status"])
     res.floor("set_market_status_implementations", idem_rule(model, res), 6)
     res.floor("pending_amount_stores", who_writes_pending(model, res), 4)
+    from ..rules.fresh import fresh_rule
+    if "R-FRESH" not in res.rules:
+        res.rules.append("R-FRESH")
+    fresh_rule(model, res, scope=('demeter/uniswap/', 'demeter/core/'))
     res.assumptions = ["closeTick / inAmount / currentLiquidity columns are per-bar pool data (loader)"]
     res.not_decided = ["'never more than own/(pool+own)' with several positions as an inequality", "Decimal precision"]
     return res
